@@ -423,7 +423,10 @@ class XBuffer(ABC):
         if sizepa > self.capacity:
             self.grow(sizepa)
         elif self.grow_step is not None:
-            self.grow(self.grow_step)
+            # as many whole steps as the request needs: a single step per
+            # recursion would exhaust the interpreter stack for small steps
+            nsteps = max(1, -(-sizepa // self.grow_step))
+            self.grow(nsteps * self.grow_step)
         else:
             self.grow(self.capacity)
 
